@@ -54,6 +54,13 @@ fn c10_families(thorough: bool) -> Vec<Family> {
         // Horner shapes: chains from zero, arbitrary accumulators, shared operands, adjacent chains
         fam("horner-k2-c0", &[VK::Horner], &CONN, 2, 0, 3, 0, &[2], 2),
         fam("horner-k3-c0", &[VK::Horner], &CONN, 3, 0, 2, 0, &[2], 3),
+        // aliasing chains: up to three assertions among four publics, constants and one computed
+        // value (several Const/Public rows on one slot)
+        {
+            let mut f = fam("alias-k1-c3", &[VK::Add, VK::Mul], &CONN, 1, 3, 4, 0, &[1, 2], 0);
+            f.assert_split = Some((3, 1));
+            f
+        },
         // binary arithmetic with aliasing through one assertion
         fam("bin-k2-c1", &BIN, &ALLA, 2, 1, 3, 1, &[0, 1, 2], 0),
         // one wide call + one more call
@@ -233,6 +240,7 @@ fn main() {
     let raw = AtomicU64::new(0);
     let minimise_budget = AtomicU64::new(150);
     let ef_budget = AtomicU64::new(if ctx.quick() { 3000 } else { 100000 });
+    let per_class_proved: Mutex<std::collections::HashMap<String, u32>> = Mutex::new(Default::default());
     let class_passed = AtomicU64::new(0);
     let mut fam_reports = vec![];
     let (mut th, mut tc) = (0u64, 0u64);
@@ -264,16 +272,37 @@ fn main() {
     for (fi, fam) in fams.iter().enumerate() {
         let stats = Stats::default();
         let seen_prune = SeenSet::default();
+        let per_class_proved = &per_class_proved;
         let stop_at = (0.80 * (fi as f64 + 1.0) / fams.len() as f64 + 0.02).min(0.82);
         let t0 = ctx.elapsed_s();
         explore::<F, F>(fam, &cs, &ctx, stop_at, &seen_keys, &seen_prune, &stats, &|_p, _m| {}, &|p, _m| {
             // a budgeted number of expected-to-fail programs is proven anyway: it validates the
             // structural classification against the implementation
             let prove_ef = ef_budget.fetch_update(Ordering::Relaxed, Ordering::Relaxed, |b| b.checked_sub(1)).is_ok();
-            let Some(o) = check_program(p, &cs, &packs[0].1, prove_ef) else {
+            let Some(mut o) = check_program(p, &cs, &packs[0].1, prove_ef) else {
                 histo.add("build_rejected");
                 return;
             };
+            // independently of the global budget, the first programs of EVERY structural class
+            // are proven: a class the known-findings file does not list must not hide behind it
+            if o.stage == "skipped" {
+                let class = o.expected_fail.clone().unwrap_or_default();
+                let take = {
+                    let mut m = per_class_proved.lock().unwrap();
+                    let n = m.entry(class).or_insert(0u32);
+                    if *n < 6 {
+                        *n += 1;
+                        true
+                    } else {
+                        false
+                    }
+                };
+                if take {
+                    if let Some(o2) = check_program(p, &cs, &packs[0].1, true) {
+                        o = o2;
+                    }
+                }
+            }
             let tag = if o.expected_fail.is_some() { "known_class" } else { "clean" };
             histo.add(&format!("default/{tag}/{}", o.stage));
             if matches!(o.stage, "nosat" | "precondition" | "skipped") {
